@@ -315,44 +315,35 @@ Proof.
   - now rewrite (IH Hm Hin).
 Qed.
 
-Definition erased_single (final : list coord) (n : node) : single :=
-  mkSingle None None (loc_of final (nxy n)) (n_service n) (n_start n) (Some (n_end n)).
 Definition req_coords (rs : list request) : list coord := flat_map (fun r => [nxy (rq_p r); nxy (rq_d r)]) rs.
 
 Lemma lilim_build_spec m rs :
-  (forall r, In r rs -> alookup (n_id (rq_p r)) m = Some (pickup_line r) /\
+  (forall r, In r rs -> 0 < rq_q r /\
+                        alookup (n_id (rq_p r)) m = Some (pickup_line r) /\
                         alookup (n_id (rq_d r)) m = Some (delivery_line r)) ->
   forall ci idx rest,
   lilim_build ci idx (map (fun r => (n_id (rq_p r), n_id (rq_d r))) rs) m =
   Ok (map (fun kr => JMulti (fst kr)
-                       [erased_single (fold_left add_coord (req_coords rs ++ rest) ci) (rq_p (snd kr));
-                        erased_single (fold_left add_coord (req_coords rs ++ rest) ci) (rq_d (snd kr))])
+                       [lil_single (fold_left add_coord (req_coords rs ++ rest) ci) (rq_p (snd kr)) (0, rq_q (snd kr), 0, 0);
+                        lil_single (fold_left add_coord (req_coords rs ++ rest) ci) (rq_d (snd kr)) (0, 0, 0, rq_q (snd kr))])
           (number_from idx rs),
       fold_left add_coord (req_coords rs) ci).
 Proof.
   induction rs as [|r rs IH]; intros Hm ci idx rest; [reflexivity|].
-  cbn [map lilim_build]. destruct (Hm r (or_introl eq_refl)) as [-> ->].
-  unfold lilim_single. cbn [dimens_default fst snd].
-  unfold pickup_line at 1 2. cbn [l_x l_y].
+  cbn [map lilim_build]. destruct (Hm r (or_introl eq_refl)) as (Hq & -> & ->).
+  unfold lilim_single, lilim_dimens. cbn [fst snd].
+  unfold pickup_line at 1 2 3 4 5. cbn [l_x l_y l_id l_dem].
   destruct (collect ci (n_x (rq_p r), n_y (rq_p r))) as [ci1 lp] eqn:E1.
-  unfold delivery_line at 1 2. cbn [l_x l_y].
+  unfold delivery_line at 1 2 3 4 5. cbn [l_x l_y l_id l_dem].
   destruct (collect ci1 (n_x (rq_d r), n_y (rq_d r))) as [ci2 ld] eqn:E2.
   destruct (collect_eq _ _ (nxy (rq_d r) :: req_coords rs ++ rest) _ _ E1) as [-> ->].
   destruct (collect_eq _ _ (req_coords rs ++ rest) _ _ E2) as [-> ->].
   rewrite (IH (fun r' H' => Hm r' (or_intror H')) _ (idx + 1) rest). cbn [bind].
-  cbn [number_from map fst snd req_coords flat_map app fold_left]. unfold erased_single, nxy.
-  unfold pickup_line, delivery_line. cbn [l_service l_start l_end]. reflexivity.
-Qed.
-
-Lemma erase_expected_lilim I :
-  erase_dimens (expected_lilim I) =
-  let d := li_depot I in
-  let final := all_coords (nxy d :: req_coords (li_reqs I)) in
-  mkProblem (map (fun kr => JMulti (fst kr) [erased_single final (rq_p (snd kr)); erased_single final (rq_d (snd kr))])
-                 (number_from 0 (li_reqs I)))
-            (mkFleet (li_number I) (li_capacity I) (loc_of final (nxy d)) (n_start d) (Some (n_end d))) final.
-Proof.
-  unfold erase_dimens, expected_lilim. cbv zeta. cbn [p_jobs p_fleet p_coords]. rewrite map_map. reflexivity.
+  cbn [number_from map fst snd req_coords flat_map app fold_left]. unfold lil_single, nxy.
+  unfold pickup_line, delivery_line. cbn [l_service l_start l_end l_dem l_id l_x l_y].
+  replace (0 <? rq_q r) with true by (symmetry; apply Z.ltb_lt; lia).
+  replace (0 <? - rq_q r) with false by (symmetry; apply Z.ltb_ge; lia).
+  replace (Z.abs (- rq_q r)) with (rq_q r) by lia. reflexivity.
 Qed.
 
 (* any arrangement of the node lines in which the pickups appear in request order *)
@@ -365,10 +356,11 @@ Definition lilim_layout (I : lil_inst) (rows : list (lline * Z)) : Prop :=
 
 Lemma parse_print_lilim_layout I rows :
   1 <= li_number I < two64 -> nat32 (li_capacity I) -> 0 <= li_speed I < two64 -> node_wf (li_depot I) ->
+  Forall (fun r => 0 < rq_q r) (li_reqs I) ->
   lilim_layout I rows ->
-  read_lilim_defs (print_lilim_rows I rows) = Ok (erase_dimens (expected_lilim I)).
+  read_lilim_defs (print_lilim_rows I rows) = Ok (expected_lilim I).
 Proof.
-  intros Hn Hc Hs (D1 & D2 & D3 & D4 & D5 & D6) (Hrows & Hnd & Hrel & Hin).
+  intros Hn Hc Hs (D1 & D2 & D3 & D4 & D5 & D6) Hqs (Hrows & Hnd & Hrel & Hin).
   unfold read_lilim_defs, print_lilim_rows, lilim_head. cbn [app next_line].
   unfold read_vehicle3. rewrite <- (app_nil_r (map TInt _)).
   change 3%nat with (List.length [li_number I; li_capacity I; li_speed I]).
@@ -388,9 +380,10 @@ Proof.
   destruct (collect_eq _ _ (req_coords (li_reqs I)) _ _ E) as [-> ->].
   rewrite (lilim_read_lines_print _ Hrows). cbn [bind]. unfold lilim_relations. rewrite Hrel.
   rewrite (lilim_build_spec _ (li_reqs I)) with (rest := []).
-  - cbn [bind]. rewrite app_nil_r, erase_expected_lilim. cbv zeta. fold d. unfold all_coords. cbn [fold_left].
+  - cbn [bind]. rewrite app_nil_r. unfold expected_lilim. cbv zeta. fold d. unfold all_coords, req_coords. cbn [fold_left].
     rewrite as_i32_id by (apply nat32_i32, Hc). reflexivity.
   - intros r Hr. destruct (Hin r Hr) as [Hp Hd]. unfold lilim_map.
+    split; [rewrite Forall_forall in Hqs; exact (Hqs r Hr)|].
     split; apply alookup_nodup; try (rewrite map_map; cbn [fst]; exact Hnd).
     + change (n_id (rq_p r)) with (l_id (pickup_line r)).
       apply (in_map (fun c => (l_id c, c))). exact Hp.
@@ -419,14 +412,16 @@ Proof.
     split; [assumption|right; now left].
 Qed.
 
-Lemma parse_print_lilim_partial I : lil_wf I ->
-  read_lilim_defs (print_lilim I) = Ok (erase_dimens (expected_lilim I)).
+Lemma parse_print_lilim I : lil_wf I ->
+  read_lilim_defs (print_lilim I) = Ok (expected_lilim I).
 Proof.
-  intros H. pose proof (lilim_rows_layout I H) as L. destruct H as (H1 & H2 & H3 & H4 & _).
-  now apply parse_print_lilim_layout.
+  intros H. pose proof (lilim_rows_layout I H) as L. destruct H as (H1 & H2 & H3 & H4 & H5 & _).
+  apply parse_print_lilim_layout; try assumption.
+  eapply Forall_impl; [|exact H5]. cbv beta. intros r (_ & _ & Hq). lia.
 Qed.
 
-(* the faithful model refutes the full statement: sub-jobs lose id and demand *)
+(* the instance that refuted the full statement before the repair of C13-F1 (commit 164f50b); kept as the
+   non-vacuity witness and as corpus case corpus/C13/lilim_dimens_dropped.json *)
 Definition lil_witness : lil_inst :=
   mkLil 2 20 1 (mkNode 0 5 5 0 100 0) [mkReq (mkNode 1 6 5 0 50 2) (mkNode 2 7 7 10 90 1) 3].
 Lemma lil_witness_wf : lil_wf lil_witness.
@@ -436,9 +431,6 @@ Proof.
   - repeat constructor; cbn; lia.
   - repeat constructor; cbn; intuition lia.
 Qed.
-Lemma parse_print_lilim_refuted :
-  exists I, lil_wf I /\ read_lilim_defs (print_lilim I) <> Ok (expected_lilim I).
-Proof. exists lil_witness. split; [exact lil_witness_wf|]. vm_compute. discriminate. Qed.
 
 (* ---------- TSPLIB ---------- *)
 Lemma read_key_value_kv key v : v <> TColon -> read_key_value key (kv key v) = Ok [v].
